@@ -137,92 +137,62 @@ def data_guards(guards):
 
 
 def long_reader_rule(rep, F, C, rule):
-    """digit loop of a TYPE_LONG reader, decided by evaluating the extracted count, per-iteration update and result terms on small integers"""
+    """TYPE_LONG reader, decided independently of how its loop is written: the reader is specialised for concrete stored sizes (the digit loop then
+    unrolls) with one fresh symbol per 16-bit read; the number of reads and the value of the result term on distinctive 15-bit digits are compared
+    with marshal.c's  sign(size) * sum(digit_j << 15*j)."""
     from ..sve import eval_term
     f = C.ns.get("dispatch", {}).get("l") if isinstance(C.ns.get("dispatch"), dict) else None
     if not isinstance(f, FuncRef):
         rep.ob(rule, "xdis.marsh.%s.dispatch" % C.name, "reader-for:'l'", False, expected="a load_long function", derived=repr(f))
         return
-    size, digit = Sym("size", "int"), Sym("digit", "int")
-
-    def hook(spec, name, fv, args, kw, node):
-        base = name.split(".")[-1]
-        if base in ("_r_long", "r_long"):
-            return size
-        if base in ("_r_short", "r_short"):
-            spec.effect("rd", "i16", digit, node=node)
-            return digit
-        return NotImplemented
-    me = Instance(C)
-    me.attrs.update(bufstr=Sym("buf", "bytes"), bufpos=Sym("p", "int"), _read=Sym("readfunc", "func"), _stringtable=Sym("stringtable", "list"), python_version=None)
-    sp = Spec(F, hooks=[hook])
-    out = sp.run(f, [me])
     rep.analysed(f.qualname)
     FQ = f.qualname
-    loops = [e.args[3] for e in sp.effects if e.kind == "loop" and any(x.kind == "rd" for x in e.args[3].effects)]
-    if len(loops) != 1:
-        rep.ob(rule, FQ, "long:digit-loop", False, expected="one loop reading one 16-bit digit per iteration", derived=len(loops))
-        return
-    ls = loops[0]
-    nrd = sum(1 for x in ls.effects if x.kind == "rd")
-    # (a) number of iterations
-    cnt_ok, cnt_got = False, show(ls.cond)
-    c = ls.cond
-    if isinstance(c, Op) and c.op == "iter-more" and isinstance(c.args[0], Op) and c.args[0].op == "range":
-        ra = c.args[0].args
+    DIG = [0x7FFF, 0x0001, 0x1234, 0x4000, 0x2AAA]
+    cnt_bad, acc_bad, sign_bad = [], [], []
+    for size in (-5, -3, -1, 0, 1, 2, 4):
+        ds = []
+
+        def hook(spec, name, fv, args, kw, node, size=size, ds=ds):
+            base = name.split(".")[-1]
+            if base in ("_r_long", "r_long"):
+                return size
+            if base in ("_r_short", "r_short"):
+                d = Sym("d%d" % len(ds), "int")
+                ds.append(d)
+                return d
+            return NotImplemented
+        me = Instance(C)
+        me.attrs.update(bufstr=Sym("buf", "bytes"), bufpos=Sym("p", "int"), _read=Sym("readfunc", "func"), _stringtable=Sym("stringtable", "list"), python_version=None)
+        sp = Spec(F, hooks=[hook])
         try:
-            got = [len(range(*[eval_term(a, {repr(size): sv}) for a in ra])) for sv in (-3, 0, 1, 4)]
-            cnt_ok = got == [3, 0, 1, 4]
-            cnt_got = got
+            out = sp.run(f, [me])
+            rets = [l.value for g, l in leaves(out) if isinstance(l, Ret)]
         except Exception as ex:
-            cnt_got = "not evaluable: %s" % ex
-    rep.ob(rule, FQ, "long:digit-count", cnt_ok and nrd == 1, expected="|size| iterations, one digit each (sizes -3, 0, 1, 4 -> 3, 0, 1, 4)", derived=[cnt_got, "%d reads per iteration" % nrd],
-           msg="the number of 15-bit digits read is not the absolute value of the stored size")
-    # (b) accumulation
-    lv = [(g, l) for g, l in leaves(ls.out) if isinstance(l, (Fall,))]
-    accs = []
-    for g, l in lv:
-        for n, v in l.env.items():
-            if isinstance(n, str) and n in ls.pre and repr(digit) in repr(v) and n not in accs:
-                accs.append(n)
-    acc_ok, acc_got = False, accs
-    if len(accs) == 1 and len(lv) == 1:
-        a = accs[0]
-        init = ls.pre.get(a)
-        idx = Sym("%s:idx" % ls.tag)
-        head = Sym("%s:%s" % (ls.tag, a))
+            cnt_bad.append("size %d: not evaluable (%s)" % (size, ex))
+            continue
+        if len(ds) != abs(size):
+            cnt_bad.append("size %d: %d digits read" % (size, len(ds)))
+            continue
+        if len(rets) != 1:
+            acc_bad.append("size %d: %d results" % (size, len(rets)))
+            continue
         try:
-            vals = []
-            for dv, iv, hv in ((3, 2, 5), (0x7FFF, 0, 0), (1, 3, 1 << 44)):
-                vals.append(eval_term(lv[0][1].env[a], {repr(digit): dv, repr(idx): iv, repr(head): hv}))
-            want = [5 + (3 << 30), 0x7FFF, (1 << 44) + (1 << 45)]
-            acc_ok = vals == want and (init == 0 and not isinstance(init, bool))
-            acc_got = {"update": show(lv[0][1].env[a]), "initial": show(init), "evaluated": vals}
+            got = eval_term(rets[0], {repr(d): DIG[j] for j, d in enumerate(ds)})
         except Exception as ex:
-            acc_got = "not evaluable: %s" % ex
-    rep.ob(rule, FQ, "long:accumulation", acc_ok, expected="x starts at 0; x' = x + (digit << 15*i)", derived=acc_got,
-           msg="the digits of a multi-digit integer are combined with the wrong weights")
-    # (c) sign
-    rets = [(g, l.value) for g, l in leaves(out) if isinstance(l, Ret)]
-    sign_ok, sign_got = False, [show(v) for g, v in rets]
-    if len(accs) == 1 and rets:
-        after = Sym("after-%s:%s" % (ls.tag, accs[0]))
-        try:
-            res = []
-            for sv in (-3, 2):
-                val = {repr(size): sv, repr(after): 7}
-                r = None
-                for g, v in rets:
-                    if all(eval_term(c_, val) for c_ in g if "loop-exit" not in show(c_)):
-                        r = eval_term(v, val)
-                        break
-                res.append(r)
-            sign_ok = res == [-7, 7]
-            sign_got = {"result": sign_got, "evaluated(size=-3, 2; magnitude 7)": res}
-        except Exception as ex:
-            sign_got = "not evaluable: %s" % ex
-    rep.ob(rule, FQ, "long:sign", sign_ok, expected="-magnitude when the stored size is negative, +magnitude otherwise", derived=sign_got,
-           msg="the sign of a multi-digit integer does not follow the sign of its stored size")
+            acc_bad.append("size %d: result %s not evaluable (%s)" % (size, show(rets[0])[:60], ex))
+            continue
+        mag = sum(DIG[j] << (15 * j) for j in range(abs(size)))
+        if abs(got) != mag if isinstance(got, int) and not isinstance(got, bool) else True:
+            acc_bad.append("size %d: %s -> %r, magnitude should be %d" % (size, show(rets[0])[:60], got, mag))
+        elif got != (-mag if size < 0 else mag):
+            sign_bad.append("size %d: %r, expected %d" % (size, got, -mag if size < 0 else mag))
+    rep.ob(rule, FQ, "long:digit-count", not cnt_bad, expected="|size| 16-bit reads for stored sizes -5, -3, -1, 0, 1, 2, 4", derived=cnt_bad[:3] or "equal",
+           msg="the number of 15-bit digits read is not the absolute value of the stored size: %s" % "; ".join(cnt_bad[:2]))
+    rep.ob(rule, FQ, "long:accumulation", not acc_bad and not cnt_bad, expected="magnitude = sum(digit_j << 15*j), starting from 0", derived=acc_bad[:3] or ("equal" if not cnt_bad else "not evaluated"),
+           msg="the digits of a multi-digit integer are combined with the wrong weights: %s" % "; ".join(acc_bad[:2]))
+    rep.ob(rule, FQ, "long:sign", not sign_bad and not acc_bad and not cnt_bad, expected="-magnitude when the stored size is negative, +magnitude otherwise",
+           derived=sign_bad[:3] or ("equal" if not (acc_bad or cnt_bad) else "not evaluated"),
+           msg="the sign of a multi-digit integer does not follow the sign of its stored size: %s" % "; ".join(sign_bad[:2]))
 
 
 def run(rep, tier):
